@@ -278,6 +278,40 @@ def wide_game_case(res, rnd, prop: str, n: int = 17):
                            "reported": repr(r[1]) if r[0] == "ok" else r[0], "expected": w[i] + n}, key=f"{prop}:wide-game")
 
 
+def every_n_shapley(res, rnd, ns) -> None:
+    """EVERY player count of a range (not a sample): the single-player entry point on a game with a closed-form Shapley value —
+    v = Σ_i a_i·[i ∈ S] + Σ_T c_T·[T ⊆ S] (a few unanimity games) has φ_i = a_i + Σ_{T∋i} c_T/|T| — for player 0, the last player
+    and one in between; small integers, relative tolerance 1e-9.  A fault tied to one particular n (a coefficient table that is
+    off at n = 12 only, a run boundary at 2^12 ids) has nowhere to hide."""
+    from incomplete_cooperative.shapley import compute_shapley_value_for_player
+    import numpy as _np
+    from incomplete_cooperative.game import IncompleteCooperativeGame as _ICG
+    for n in ns:
+        N = 2 ** n
+        a = [rnd.randint(-5, 5) for _ in range(n)]
+        Ts = [sum(1 << i for i in rnd.sample(range(n), rnd.randint(2, n))) for _ in range(3)] + [N - 1, (1 << (n - 1)) | (1 << (n - 2))]
+        cT = [rnd.randint(1, 6) for _ in Ts]
+        ids = _np.arange(N)
+        vals = _np.zeros(N)
+        for i in range(n):
+            vals += a[i] * ((ids >> i) & 1)
+        for T, c in zip(Ts, cT):
+            vals += c * ((ids & T) == T)
+        g = _ICG(n)
+        g.set_values(vals.astype(float))
+        for i in sorted({0, n - 1, n // 2, n - 2}):
+            want = Fraction(a[i]) + sum(Fraction(c, popc(T)) for T, c in zip(Ts, cT) if T >> i & 1)
+            r = call(compute_shapley_value_for_player, i, g)
+            res.evaluations += 1
+            res.count(f"C06:every-n={n}")
+            if r[0] != "ok" or abs(Fraction(float(r[1])) - want) > Fraction(1, 10 ** 9) * max(1, abs(want)):
+                res.violation(f"Shapley value of player {i} in a {n}-player game (additive + unanimity games, closed form) ≠ the average "
+                              "marginal contribution beyond float rounding",
+                              {"n": n, "player": i, "additive": a, "unanimity": [[T, c] for T, c in zip(Ts, cT)],
+                               "reported": repr(r[1]) if r[0] == "ok" else r[1], "expected": float(want)}, key="C06:every-n")
+                return
+
+
 def run_c05(tier, budget, rnd, res, script, post):
     from incomplete_cooperative.coalitions import Coalition
     from incomplete_cooperative.exploitability import MaxGainGame, compute_exploitability
@@ -287,7 +321,22 @@ def run_c05(tier, budget, rnd, res, script, post):
     # large player counts in ASCENDING order within one process (per-process tables that grow with n; coalition ids beyond 2^13):
     # integer bounds, real code only, oracle = the binomially weighted gap (relative tolerance 1e-9)
     import numpy as _np
-    for n_big in ((10, 11, 14) if tier == "quick" else (10, 11, 12, 14, 15)):
+    # BEFORE anything else, for every player count used below: one exploitability call on a game whose unknown coalitions still carry
+    # the "nothing known" bounds −inf / +inf (no bound computation has run yet).  Its result (inf / nan) is not judged; what is judged
+    # is every ordinary game evaluated AFTER it in this process — per-process state must not remember the earlier game.
+    from incomplete_cooperative.game import IncompleteCooperativeGame as _ICG
+    for n_p in range(2, 15):
+        gp = _ICG(n_p)
+        gp.set_value(float(rnd.randint(1, 9)), Coalition(2 ** n_p - 1))
+        gp.set_upper_bounds(_np.full(2 ** n_p, _np.inf))
+        if n_p % 2:
+            gp.set_lower_bounds(_np.full(2 ** n_p, -_np.inf))
+        with _np.errstate(all="ignore"):
+            call(compute_exploitability, gp)
+            call(lambda: MaxGainGame(gp, 0).get_values())
+        res.count("C05:nonfinite-precall")
+    # every player count from 7 to 14 (thorough: 16), ascending: a fault that needs one particular n has nowhere to hide
+    for n_big in (range(7, 15) if tier == "quick" else range(7, 17)):
         if budget.left() < 20:
             res.notes.append("C05: large-n exploitability cases skipped (budget)")
             break
@@ -307,7 +356,7 @@ def run_c05(tier, budget, rnd, res, script, post):
             res.violation(f"exploitability of a {n_big}-player game ≠ Σ (hi−lo)/C(n,|S|) beyond float rounding (computed after smaller games in "
                           f"the same process)", {"n": n_big, "lo": [int(x) for x in lo_b], "hi": [int(x) for x in hi_b],
                                                  "reported": repr(rb[1]) if rb[0] == "ok" else rb[1], "expected": want_b,
-                                                 "order_in_process": "ascending: 10, 11, 14"}, key="C05:large-n")
+                                                 "order_in_process": "ascending from 7, after one call per player count on a game with infinite bounds"}, key="C05:large-n")
     nmax = 6 if tier == "quick" else 8
     per_n = 150 if tier == "quick" else 1200
     for n in range(1, nmax + 1):
@@ -494,6 +543,7 @@ def run_c06(tier, budget, rnd, res, script, post):
     # a large player count comes FIRST and out of ascending order (12 before the small ones; thorough also 10 → 13 → 11):
     # per-process tables that grow with n (factorials, memoised structures) are then extended by several entries at once
     big = [12] if tier == "quick" else [12, 10, 13, 11]
+    every_n_shapley(res, rnd, range(7, 17) if tier == "quick" else range(7, 19))
     wide_game_case(res, rnd, "C06", 17)
     if tier != "quick":
         wide_game_case(res, rnd, "C06", 18)
